@@ -127,6 +127,8 @@ func WorkerMain(args []string) int {
 	out := fs.String("out", "", "")
 	budget := fs.Duration("budget", 0, "stop starting new runs after this long")
 	fs.Parse(args)
+	limitAddressSpace()
+	marker := newRunMarker(*out)
 	jobs := JobsFor(*prop, *tier)
 	res := &workerResult{ViolCount: map[string]int{}, Collateral: map[string]int{}, ByBackend: map[string]int{}, ByEngine: map[string]int{}, Extra: map[string]int64{}}
 	agg := NewStats()
@@ -154,6 +156,7 @@ func WorkerMain(args []string) int {
 				res.Extra["runs_skipped_budget"]++
 				continue
 			}
+			marker.set(ji, idx)
 			o := fn(job, *prop, *seed, idx)
 			if o.Trouble != nil {
 				res.Trouble = append(res.Trouble, fmt.Sprintf("run %d: %v", idx, o.Trouble))
@@ -205,6 +208,7 @@ func WorkerMain(args []string) int {
 		fmt.Fprintln(os.Stderr, err)
 		return 2
 	}
+	marker.done()
 	return 0
 }
 
@@ -385,9 +389,21 @@ func CheckMain(args []string) int {
 		p.log.Close()
 		b, err := os.ReadFile(p.out)
 		if err != nil {
+			// the worker process died: did the run it was executing kill it?
 			lb, _ := os.ReadFile(p.log.Name())
-			fmt.Fprintf(os.Stderr, "worker %d produced no result (harness trouble):\n%s\n", i, tail(string(lb), 3000))
-			return 2
+			rf, why := investigateDeath(prop, *tier, *seed, p.out, scratch)
+			if rf == nil {
+				fmt.Fprintf(os.Stderr, "worker %d produced no result (harness trouble: %s):\n%s\n", i, why, tail(string(lb), 3000))
+				return 2
+			}
+			total.Extra["workers_lost_to_process_death"]++
+			if rf.Violation.HasProp(prop) {
+				total.ViolCount[violKey(rf.Violation)]++
+				total.Violations = append(total.Violations, rf)
+			} else {
+				total.Collateral[rf.Violation.Rule]++
+			}
+			continue
 		}
 		wr := &workerResult{}
 		if err := json.Unmarshal(b, wr); err != nil {
@@ -442,6 +458,10 @@ func CheckMain(args []string) int {
 		if total.Runs == 0 {
 			return 2
 		}
+	}
+	if total.Runs == 0 && len(total.Violations) == 0 {
+		fmt.Fprintln(os.Stderr, "no run was executed (harness trouble)")
+		return 2
 	}
 
 	// classify violations
